@@ -6,6 +6,21 @@ BASELINE = ("cd /repo && cargo nextest run --workspace --no-fail-fast --test-thr
             "|| cargo test --workspace --no-fail-fast --offline")
 
 CHECKS = {
+    "C07": dict(
+        category="exploration",
+        text=("Open loop: generated acceptance sequences (all-0, all-1, step changes, near-target, length up to 2000) are fed to the real "
+              "DualAverage / Adam estimators (exposed by cfg-guarded hooks). Dual averaging must reproduce the Hoffman-Gelman recursion "
+              "written in the harness from the paper, its reported average must be the documented weighted average of the observed "
+              "iterates, every value must be positive, finite and <= max_step_size, and raising any single statistic must never lower a "
+              "later iterate or average (metamorphic). Adam must move the step up exactly when the harness's own smoothed (accept - "
+              "target) is positive. Search: Strategy::init is run with a scripted momentum and the harness recomputes one-step "
+              "acceptances by single leapfrogs: the chosen step and its neighbour must bracket the target unless a documented cap or a "
+              "failing trial ended the search. Closed loop (public API): post-warmup mean acceptance on Gaussians over 8 decades."),
+        design_ref="DESIGN.md section 3, C07",
+        note=("Positivity is judged only while the real-arithmetic log step is above -700. Closed-loop bands (0.18 dual averaging, 0.45 "
+              "Adam) were calibrated on the unchanged tree over 480 runs per method and widened by 50 %; they detect gross steering errors only."),
+        technique="proptest-generated sequences vs reference recursion (Hoffman-Gelman), metamorphic monotonicity, bracket recomputation, calibrated closed-loop statistic",
+    ),
     "C19": dict(
         category="exploration",
         text=("For each of the six presets a value of every field is generated (all enum variants, Options both ways, nested adaptation "
